@@ -118,7 +118,10 @@ def mutations(r, d, others, wrong_key, quick, special_pubs=()):
     """named mutants of a valid signed datagram d"""
     out = []
     n = len(d)
-    pos = range(n * 8) if (n <= 300 and not quick) else sorted(set(r.randrange(n * 8) for _ in range(40 if quick else 1500)))
+    if quick:
+        pos = sorted(set(r.randrange(n * 8) for _ in range(40)))
+    else:   # every bit of the header (prefix, message id, key field start) and of the signature, a sample of the rest
+        pos = sorted(set(list(range(min(n, 40) * 8)) + list(range(max(0, n - 64) * 8, n * 8)) + [r.randrange(n * 8) for _ in range(500)]))
     for p in pos:
         b = bytearray(d)
         b[p // 8] ^= 1 << (p % 8)
